@@ -152,14 +152,8 @@ func funcSubStrVec(chunk []KVPair, args []Expression, ctx *ExecuteCtx) ([]any, e
 	for i := 0; i < len(chunk); i++ {
 		val := toString(values[i])
 		start := int(toInt(starts[i], 0))
-		length := int(toInt(lengths[i], 0))
-		vlen := len(val)
-		if start > vlen-1 {
-			values[i] = ""
-		} else {
-			length = min(length, vlen-start)
-			values[i] = val[start:length]
-		}
+		end := int(toInt(lengths[i], 0))
+		values[i] = subString(val, start, end)
 	}
 	return values, nil
 }
